@@ -97,7 +97,9 @@ class Conv:
                 r = self.el(args[0]) * self.el(args[1])
             elif op == 'div' and not self.field_div:
                 # integer-capable code (S: BaseNum): x / y is NOT x * (1/y); keep the division uninterpreted
-                r = A.fn('idiv', self.el(args[0]), self.el(args[1]))
+                den = self.el(args[1])
+                # x / 1 = x exactly, for integers and floats alike
+                r = self.el(args[0]) if A.eq(den, ONE) else A.fn('idiv', self.el(args[0]), den)
             elif op == 'div':
                 den = self.el(args[1])
                 if A.iszero(den):
@@ -108,6 +110,11 @@ class Conv:
                 r = -self.el(args[0])
             elif op == 'sqrt':
                 r = A.sqrt(self.el(args[0]))
+            elif op == 'hypot' and len(args) == 2:
+                x_, y_ = self.el(args[0]), self.el(args[1])
+                r = A.sqrt(x_ * x_ + y_ * y_)
+            elif op == 'mul_add' and len(args) == 3:
+                r = self.el(args[0]) * self.el(args[1]) + self.el(args[2])
             elif op == 'call':
                 name = self.S.terms[args[0]][1]
                 gargs = self.S.terms[args[1]][1]
@@ -458,11 +465,12 @@ class SplitRoot(Exception):
 class _View:
     """a Summaries object with one root replaced by a single path of it"""
 
-    def __init__(self, S, name, root, env):
+    def __init__(self, S, name, root, env, guards=()):
         self._S = S
         self.roots = dict(S.roots)
         self.roots[name] = root
         self.path_env = env
+        self.path_guards = tuple(getattr(S, 'path_guards', ())) + tuple(guards)
 
     def __getattr__(self, k):
         return getattr(self._S, k)
@@ -489,7 +497,7 @@ def run_custom(run, S, fn, name, spec, kw, depth=0):
                     atom = A.CTX.atom(an)
                     if atom not in A.CTX.hyps and atom not in e_.atoms():
                         A.CTX.hyps[atom] = (1, e_)
-                view = _View(S, sp.name, dict(sp.root, out=leaf), env)
+                view = _View(S, sp.name, dict(sp.root, out=leaf), env, guards)
                 run.key_suffix = old_suffix + ':path%d' % li
                 with path_hyps(S, guards):
                     run_custom(run, view, fn, name, spec, kw, depth + 1)
